@@ -8,6 +8,7 @@ import GfaModel.Version
 import GfaModel.Multiply
 import GfaModel.Convert
 import GfaModel.Components
+import GfaModel.LinearPaths
 import GfaModel.Seq
 import GfaModel.Line
 import GfaModel.Levels
@@ -307,6 +308,9 @@ def step (d : DState) (cmd : String) (args : List (List Char)) : DState × Strin
     (d, match G.Cap.capturedPath d.g (str p) with
         | .ok path => "ok " ++ "|".intercalate (path.map (G.Cap.El.show d.g))
         | .error e => "gerr " ++ e.str)
+  | "g.lpaths", [] => (d, "ok " ++ ";".intercalate ((G.linearPaths d.g).map G.showPath))
+  | "g.lpath", [s] =>
+    (d, "ok " ++ G.showPath (G.linearPath (G.otherEnds d.g) ((G.segNames d.g).length + 1) (str s) []).1)
   | "g.counts", [] =>
     (d, s!"ok dovetails={G.nDovetails d.g} containments={G.nContainments d.g} internals={G.nInternals d.g} dead_ends={G.nDeadEnds d.g}")
   | _, _ =>
